@@ -147,3 +147,20 @@ Definition expected_dirnode_code_pins : list (string * string) := [
 
 Lemma dirnode_pins_ok : dirnode_code_pins = expected_dirnode_code_pins.
 Proof. vm_compute. reflexivity. Qed.
+
+Definition expected_prohibited_code_pins : list (string * string) := [
+    ("ProhibitedNode.get_cap", "04c76914b407db5d");
+    ("ProhibitedNode.get_readcap", "8245d23a66e02430");
+    ("ProhibitedNode.get_uri", "1b8b0f2cfcd4cc6b");
+    ("ProhibitedNode.get_write_uri", "453c20b972209a86");
+    ("ProhibitedNode.get_readonly_uri", "b52b5c4277f09932");
+    ("ProhibitedNode.is_readonly", "c9388039a1c87621");
+    ("ProhibitedNode.is_mutable", "e76d62fa04e3eeba");
+    ("ProhibitedNode.is_unknown", "bc1846960a62f110");
+    ("ProhibitedNode.is_allowed_in_immutable_directory", "c76493f8d71262b5");
+    ("ProhibitedNode.raise_error", "370ed14c06a91819");
+    ("ProhibitedNode.get_verify_cap", "e042cabe527c171b");
+    ("ProhibitedNode.get_storage_index", "27ed201da2fdbb0d")].
+
+Lemma prohibited_pins_ok : prohibited_code_pins = expected_prohibited_code_pins.
+Proof. vm_compute. reflexivity. Qed.
